@@ -113,6 +113,14 @@ def build_go(force=False):
             log.append(out)
             if rc != 0:
                 return False, "build of %s failed:\n%s" % (pkg, out)
+        # race-detector builds (C04); need cgo
+        renv = dict(env)
+        renv["CGO_ENABLED"] = "1"
+        for name, pkg in (("go-critic-race", "./cmd/go-critic"), ("go-critic-analysis-race", "./cmd/go-critic-analysis")):
+            rc, out = sh(["go", "build", "-race", "-o", os.path.join(BIN, name), pkg], cwd=REPO, env=renv, timeout=1200)
+            log.append(out)
+            if rc != 0:
+                return False, "race build of %s failed:\n%s" % (pkg, out)
         return True, "\n".join(log)
 
 
